@@ -46,7 +46,10 @@ func RunScan(target string, opts models.ScanOptions, noSandbox bool) error {
 
 	if !noSandbox && !sb.IsSandboxed() {
 		args := []string{"--target", cleanTarget}
-		args = append(args, "--threshold", fmt.Sprintf("%f", opts.Threshold))
+		// %v keeps the exact value (shortest representation that round-trips); %f rounds to six
+		// decimals, so a threshold below 5e-7 reached the worker as 0 and let every signature
+		// through, including ones whose required calls are missing (confidence 0).
+		args = append(args, "--threshold", fmt.Sprintf("%v", opts.Threshold))
 		args = append(args, "--deps-depth", opts.DepsDepth)
 
 		if opts.ExactOnly {
